@@ -614,6 +614,54 @@ fn check_hdr(c: &FrameCase, built: &BuiltFrame, models: &[Result<ModelFde, Strin
             (g, w) => fail!("c05/hdr/nth-mismatch", "n={}: {:?} vs {:?}", k, g, w),
         }
     }
+    // histories on one iterator: every sequence of up to three steps over {next, nth(0), nth(1), nth(2)}; the iterator
+    // keeps its place between calls, and nothing is yielded beyond the table's rows
+    {
+        let n = encoded_rows.len();
+        let ops: [Option<usize>; 4] = [None, Some(0), Some(1), Some(2)];
+        for len in 1..=3usize {
+            for idx in 0..4usize.pow(len as u32) {
+                let mut it = table.iter(&bases);
+                let mut pos = 0usize;
+                let mut trace = Vec::new();
+                for step in 0..len {
+                    let op = ops[(idx / 4usize.pow(step as u32)) % 4];
+                    let (got, at) = match op {
+                        None => (it.next(), pos),
+                        Some(k) => (it.nth(k), pos + k),
+                    };
+                    trace.push(op);
+                    match (got, encoded_rows.get(at)) {
+                        (Ok(Some((f, t))), Some(w)) => ensure_eq!((f.pointer(), t.pointer()), *w, "c05/hdr/iter-history-row", "steps {:?} (None = next, Some(k) = nth(k)) over {} rows", trace, n),
+                        (Ok(None), None) | (Err(_), None) => {}
+                        (g, w) => fail!("c05/hdr/iter-history", "steps {:?} (None = next, Some(k) = nth(k)) over {} rows: got {:?}, the table has {:?} there", trace, n, g, w),
+                    }
+                    pos = (at + 1).min(n + 4);
+                    if pos <= n {
+                        ensure_eq!(Iterator::size_hint(&it), (n - pos, Some(n - pos)), "c05/hdr/iter-size_hint", "after steps {:?} over {} rows", trace, n);
+                    }
+                }
+            }
+        }
+        // the std::iter::Iterator view of the same table
+        let mut it = table.iter(&bases);
+        let mut k = 0;
+        while let Some(r) = Iterator::next(&mut it) {
+            match (r, encoded_rows.get(k)) {
+                (Ok((f, t)), Some(w)) => ensure_eq!((f.pointer(), t.pointer()), *w, "c05/hdr/std-iter-row", "row {}", k),
+                (g, w) => fail!("c05/hdr/std-iter", "row {}: {:?} vs {:?}", k, g, w),
+            }
+            k += 1;
+            if k > n + 2 {
+                break;
+            }
+        }
+        ensure_eq!(k, n, "c05/hdr/std-iter-count");
+        if n >= 2 {
+            let got = Iterator::nth(&mut table.iter(&bases), 1).map(|r| r.map(|(f, t)| (f.pointer(), t.pointer())).ok());
+            ensure_eq!(got, Some(Some(encoded_rows[1])), "c05/hdr/std-iter-nth");
+        }
+    }
     // lookups
     let eh = {
         let mut s = EhFrame::new(&built.bytes, endian);
